@@ -12,7 +12,7 @@ CONSTANTS
   StyleViaC = {"custom"}
   PageC = {"SetPageMargins"}
   ReopenC = {"mem"}
-  SpellC = {"asis", "abs", "extra"}
+  SpellC = {"asis", "abs", "extra", "min"}
   StyleEdC = {"name", "readd"}
   RenderViaC = {"doc", "legacy"}
   RenderImgC = {"none", "png"}
